@@ -93,3 +93,71 @@ Proof. exact gen_eq_on_arity_ok. Qed.
 Print Assumptions C10_index_classification_regenerated.
 Print Assumptions C10_reads_attributed_regenerated.
 Print Assumptions C10_regenerated_equals_model.
+
+(* ------------------------------------------------------------------------------------------------------------
+   Extension (third round): regenerated orchestration (Lemmas/RunGenLemmas.v) *)
+From Coq Require Import List String NArith ZArith Bool Arith.
+From Tealer Require Import Tables Syntax Parse Cfg StackAst Keys Analysis Domains GraphGen SolverGen ConstraintsGen RunGen GraphGenLemmas SolverGenLemmas ConstraintsGenLemmas RunGenLemmas.
+
+(* the list of analysis keys built by run_analysis (REGENERATED: tools/translate_run.py -> Gen/RunGen.v) is exactly the model's family list: per field 16 at-index, 16 absolute and 30 relative keys *)
+Theorem C10_key_families_regenerated :
+  forall base_keys ks : list string, gtx_keys_gen base_keys ks = Some (flat_map (fun base : string => map (key_of_fam base) all_gtx_fams) ks).
+Proof. exact @gtx_keys_gen_eq. Qed.
+
+Theorem C10_key_families_census :
+  Datatypes.length all_gtx_fams = 62 /\
+       map (fun i : nat => KAtIndex (N.of_nat i)) (seq 0 16) =
+       filter (fun fam : keyfam => match fam with
+                                   | KAtIndex _ => true
+                                   | _ => false
+                                   end) all_gtx_fams /\
+       map (fun i : nat => KAbs (N.of_nat i)) (seq 0 16) = filter (fun fam : keyfam => match fam with
+                                                                                       | KAbs _ => true
+                                                                                       | _ => false
+                                                                                       end) all_gtx_fams /\
+       map (fun o : nat => KRel (Z.of_nat o - 15)) (seq 0 15) ++ map (fun o : nat => KRel (Z.of_nat o + 1)) (seq 0 15) =
+       filter (fun fam : keyfam => match fam with
+                                   | KRel _ => true
+                                   | _ => false
+                                   end) all_gtx_fams.
+Proof. exact @all_gtx_fams_census. Qed.
+
+(* the post-order worklists of run_analysis equal the model's *)
+Theorem C10_worklists_regenerated_forward :
+  forall f : func,
+       succ_closed f ->
+       In (fn_entry f) (SolverLemmas.ids f) ->
+       subs_entries_ok f ->
+       (forall s : subroutine, In s (fn_subs f) -> In (s_entry s) (SolverLemmas.ids f)) ->
+       KeysGen.bind (postorders_gen f (S (Datatypes.length (fn_blocks f)))) forward_worklist_gen = Some (forward_worklist f).
+Proof. exact @forward_worklist_gen_model. Qed.
+
+Theorem C10_worklists_regenerated_backward :
+  forall f : func,
+       succ_closed f ->
+       In (fn_entry f) (SolverLemmas.ids f) ->
+       subs_entries_ok f ->
+       (forall s : subroutine, In s (fn_subs f) -> In (s_entry s) (SolverLemmas.ids f)) ->
+       KeysGen.bind (postorders_gen f (S (Datatypes.length (fn_blocks f)))) (backward_worklist_gen f) = Some (backward_worklist f).
+Proof. exact @backward_worklist_gen_model. Qed.
+
+(* run_analysis for one base key = the model's run_int (the joint pass over several keys on one shared worklist is not covered) *)
+Theorem C10_run_analysis_regenerated_one_key :
+  forall (f : func) (size : bool) (base : string) (indices : list (nat * list Z)) (fuel afuel : nat) (d0 : gdict (list Z)),
+       run_graph_ok f ->
+       (forall b : block, In b (fn_blocks f) -> NoDup (b_ins b) /\ Datatypes.length (b_ins b) < afuel) ->
+       let U := if size then Leaves.int_universal_groupsize else Leaves.int_universal_groupindex in
+       let single := fun _ : string => int_single size (fn_intcs f) in
+       init_gen (list Z) (fun _ : string => U) (fun _ : string => nil) (fun _ : string => zunion) (fun _ : string => zinter) single f afuel
+         (base :: nil) (kdict_empty (list Z)) = Some d0 ->
+       init_constraints (list Z) U nil zunion zinter (int_single size (fn_intcs f)) f <> None ->
+       run_analysis_gen (list Z) zset_eqb (fun _ : string => U) (fun _ : string => nil) (fun _ : string => zunion) (fun _ : string => zinter) single
+         f (base :: nil) nil indices fuel (S (Datatypes.length (fn_blocks f))) afuel =
+       erase (omap (fun lo : state (list Z) => kdict_set (list Z) d0 base lo) (run_int f fuel size)).
+Proof. exact @run_analysis_gen_run_int. Qed.
+
+Print Assumptions C10_key_families_regenerated.
+Print Assumptions C10_key_families_census.
+Print Assumptions C10_worklists_regenerated_forward.
+Print Assumptions C10_worklists_regenerated_backward.
+Print Assumptions C10_run_analysis_regenerated_one_key.
